@@ -34,8 +34,38 @@ func opBind(args string) string {
 	parts := strings.Split(args, " | ")
 	bindSeq++
 	cls := "Bd" + strconv.Itoa(bindSeq)
+	if e := declare(cls, parts[0], strings.TrimSpace(parts[2]) == "1"); e != "" {
+		return e
+	}
+	methodT := base.GetMethodT("Builtin", cls, "m", false)
+	return classifyBindError(me.VerifCheckAndPropagateArgs(cls, methodT, parseBindArgs(parts[1])))
+}
+
+// bindu <decl> ;; <decl> ... || <decl> ;; ... | <args>
+// a receiver that is a union of classes (separated by ||); each class declares method m once or several times (;;: the
+// later declarations are overloads). Answer as for bind: the first class none of whose declarations accepts the call decides.
+func opBindU(args string) string {
+	parts := strings.Split(args, " | ")
+	var classes []string
+	var methodTs []*base.T
+	for _, cdecl := range strings.Split(parts[0], " || ") {
+		bindSeq++
+		cls := "Bu" + strconv.Itoa(bindSeq)
+		for _, d := range strings.Split(cdecl, " ;; ") {
+			if e := declare(cls, d, false); e != "" {
+				return e
+			}
+		}
+		classes = append(classes, cls)
+		methodTs = append(methodTs, base.GetMethodT("Builtin", cls, "m", false))
+	}
+	return classifyBindError(me.VerifCheckUnion(classes, methodTs, parseBindArgs(parts[1])))
+}
+
+// declare defines instance method m of a configured class from a parameter spec (a second call adds an overload)
+func declare(cls, spec string, untyped bool) string {
 	var jargs []map[string]any
-	for _, p := range strings.Fields(strings.ReplaceAll(parts[0], "-", " ")) {
+	for _, p := range strings.Fields(strings.ReplaceAll(spec, "-", " ")) {
 		f := strings.Split(p, ":")
 		switch f[0] {
 		case "p", "s":
@@ -66,15 +96,18 @@ func opBind(args string) string {
 	}
 	ja, _ := json.Marshal(jargs)
 	ret := `{"type": "Int"}`
-	if strings.TrimSpace(parts[2]) == "1" {
+	if untyped {
 		ret = `{"type": "Untyped"}`
 	}
 	if err := builtin.VerifDefineInstanceMethod(cls, "m", ja, []byte(ret)); err != nil {
 		return "other:" + err.Error()
 	}
-	methodT := base.GetMethodT("Builtin", cls, "m", false)
+	return ""
+}
+
+func parseBindArgs(spec string) []*base.T {
 	var as []*base.T
-	for _, a := range strings.Split(parts[1], ";") {
+	for _, a := range strings.Split(spec, ";") {
 		a = strings.TrimSpace(a)
 		if a == "" || a == "-" {
 			continue
@@ -85,7 +118,10 @@ func opBind(args string) string {
 			as = append(as, nestedT(a))
 		}
 	}
-	e := me.VerifCheckAndPropagateArgs(cls, methodT, as)
+	return as
+}
+
+func classifyBindError(e string) string {
 	switch {
 	case e == "":
 		return "ok"
@@ -109,4 +145,5 @@ func opBind(args string) string {
 
 func init() {
 	ops["bind"] = opBind
+	ops["bindu"] = opBindU
 }
